@@ -206,24 +206,47 @@ theorem hSetMeta_rej {st st' : St} {c : Addr} {d : Denom} {mdOk : Bool} {tag : N
     | (simp only [Prod.mk.injEq] at h; exact h.1.symm)
     | (simp only [Prod.mk.injEq] at h; exact absurd h.2.symm hr)
 
-theorem wSetMeta_ok {st st' : St} {a : Addr} {d : Denom} {base : Option Denom} {mdOk : Bool} {tag : Nat}
-    (h : wSetMeta st a d base mdOk tag = (st', .ok)) :
-    st.admin d = some a ∧ mdOk = true ∧ validDenom d = true ∧ st' = metaSt st d tag := by
+/-- the base check of `PerformSetMetadata`: the key of the bank record is the checked denomination -/
+theorem wSetMeta_key {d : Denom} {base : Option Denom} (h : (base.isSome && base ≠ some d) = false) :
+    base.getD d = d := by
+  cases base with
+  | none => rfl
+  | some b =>
+    simp only [Option.isSome_some, Bool.true_and, ne_eq, Option.some.injEq, decide_not,
+      Bool.not_eq_false', decide_eq_true_eq] at h
+    simp [h]
+
+theorem wSetMeta_ok' {st st' : St} {a : Addr} {d : Denom} {base : Option Denom} {body : Denom} {mdOk : Bool} {tag : Nat}
+    (h : wSetMeta st a d base body mdOk tag = (st', .ok)) :
+    st.admin d = some a ∧ mdOk = true ∧ validDenom d = true ∧ st' = metaSt st d tag ∧
+      (base = none ∨ base = some d) ∧ body = d := by
   unfold wSetMeta at h
   split at h
   · simp at h
   · rename_i h1
     split at h
     · simp at h
-    · split at h
+    · rename_i h2
+      have hk : base.getD d = d := wSetMeta_key (by simpa using h2)
+      split at h
       · simp at h
       · rename_i h3
         simp only [Prod.mk.injEq, and_true] at h
-        simp only [Bool.not_eq_true', Bool.and_eq_false_iff, not_or, Bool.not_eq_false] at h3
-        exact ⟨by simpa using h1, h3.1, h3.2, by rw [← h]; rfl⟩
+        rw [hk] at h h3
+        simp only [bankMetaOk, Bool.not_eq_true', Bool.and_eq_false_iff, not_or, Bool.not_eq_false,
+          decide_eq_false_iff_not, Classical.not_not] at h3
+        refine ⟨by simpa using h1, h3.1.1.1, h3.1.1.2, by rw [← h]; rfl, ?_, h3.2⟩
+        cases base with
+        | none => exact Or.inl rfl
+        | some b => right; simp only [Option.getD_some] at hk; rw [hk]
 
-theorem wSetMeta_rej {st st' : St} {a : Addr} {d : Denom} {base : Option Denom} {mdOk : Bool} {tag : Nat} {r : Res}
-    (h : wSetMeta st a d base mdOk tag = (st', r)) (hr : r ≠ .ok) : st' = st := by
+theorem wSetMeta_ok {st st' : St} {a : Addr} {d : Denom} {base : Option Denom} {body : Denom} {mdOk : Bool} {tag : Nat}
+    (h : wSetMeta st a d base body mdOk tag = (st', .ok)) :
+    st.admin d = some a ∧ mdOk = true ∧ validDenom d = true ∧ st' = metaSt st d tag :=
+  ⟨(wSetMeta_ok' h).1, (wSetMeta_ok' h).2.1, (wSetMeta_ok' h).2.2.1, (wSetMeta_ok' h).2.2.2.1⟩
+
+theorem wSetMeta_rej {st st' : St} {a : Addr} {d : Denom} {base : Option Denom} {body : Denom} {mdOk : Bool} {tag : Nat} {r : Res}
+    (h : wSetMeta st a d base body mdOk tag = (st', r)) (hr : r ≠ .ok) : st' = st := by
   unfold wSetMeta at h
   repeat' split at h
   all_goals first
@@ -317,11 +340,11 @@ theorem step_setmeta_ok {st st' : St} {mode : Nat} {s c : Addr} {d : Denom} {mdO
 theorem pair_eta {α β : Type} (p : α × β) {b : β} (h : p.2 = b) : p = (p.1, b) := by
   cases p; simp_all
 
-theorem wCreate_ok {st st' : St} {a : Addr} {sub : Denom} {md : Option (Bool × Nat)}
+theorem wCreate_ok {st st' : St} {a : Addr} {sub : Denom} {md : Option WMeta}
     (h : wCreate st a sub md = (st', .ok)) :
     ∃ s1, hCreate st a sub = (s1, .ok) ∧
       ((md = none ∧ st' = s1) ∨
-       ∃ m, md = some m ∧ wSetMeta s1 a (tokenDenom a sub) none m.1 m.2 = (st', .ok)) := by
+       ∃ m, md = some m ∧ wSetMeta s1 a (tokenDenom a sub) m.base m.body m.ok m.tag = (st', .ok)) := by
   unfold wCreate at h
   split at h
   · simp at h
@@ -347,7 +370,7 @@ theorem wCreate_ok {st st' : St} {a : Addr} {sub : Denom} {md : Option (Bool × 
           exact absurd h.2 hne
         · exact h
 
-theorem wCreate_rej {st st' : St} {a : Addr} {sub : Denom} {md : Option (Bool × Nat)} {r : Res}
+theorem wCreate_rej {st st' : St} {a : Addr} {sub : Denom} {md : Option WMeta} {r : Res}
     (h : wCreate st a sub md = (st', r)) (hr : r ≠ .ok) : st' = st := by
   unfold wCreate at h
   split at h
@@ -366,7 +389,7 @@ theorem wCreate_rej {st st' : St} {a : Addr} {sub : Denom} {md : Option (Bool ×
         split at h
         · simp only [Prod.mk.injEq] at h; exact h.1.symm
         · rename_i hok2
-          have hok2' : (wSetMeta (hCreate st a sub).1 a (tokenDenom a sub) none m.1 m.2).2 = .ok := by
+          have hok2' : (wSetMeta (hCreate st a sub).1 a (tokenDenom a sub) m.base m.body m.ok m.tag).2 = .ok := by
             simpa using hok2
           rw [h] at hok2'
           exact absurd hok2' hr
@@ -527,7 +550,7 @@ theorem step_rej {st st' : St} {op : Op} {r : Res} (h : step st op = (st', r)) (
   | wmint a d amt to => exact wMint_rej h hr
   | wburn a d amt frm => exact wBurn_rej h hr
   | wchadmin a d new => exact wChAdmin_rej h hr
-  | wsetmeta a d base mdOk tag => exact wSetMeta_rej h hr
+  | wsetmeta a d base body mdOk tag => exact wSetMeta_rej h hr
   | send a b d amt => exact txSend_rej h hr
   | grant c s =>
     rcases txGrant_cases h with ⟨h1, _⟩ | ⟨h1, _⟩
@@ -851,7 +874,7 @@ theorem Inv.step {g st st' : St} (inv : Inv g st) {op : Op} {r : Res} (h : step 
     | wchadmin a d new =>
       obtain ⟨n, _, hn⟩ := wChAdmin_ok h
       exact inv.hChAdmin hn
-    | wsetmeta a d base mdOk tag =>
+    | wsetmeta a d base body mdOk tag =>
       obtain ⟨_, _, _, rfl⟩ := wSetMeta_ok h
       exact inv.meta d tag
     | send a b d amt =>
@@ -918,7 +941,7 @@ theorem only_admin_acts {st st' : St} {op : Op} {c : Addr} {d : Denom}
     obtain ⟨rfl, rfl⟩ := ha
     obtain ⟨_, _, hn⟩ := wChAdmin_ok h
     exact (hChAdmin_ok hn).1
-  | wsetmeta a d' base mdOk tag =>
+  | wsetmeta a d' base body mdOk tag =>
     simp only [Op.adminAct, Option.some.injEq, Prod.mk.injEq] at ha
     obtain ⟨rfl, rfl⟩ := ha
     exact (wSetMeta_ok h).1
@@ -965,7 +988,7 @@ theorem signer_authorised {st st' : St} {op : Op} {s c : Addr}
   | wmint _ _ _ _ => simp [Op.signed] at hs
   | wburn _ _ _ _ => simp [Op.signed] at hs
   | wchadmin _ _ _ => simp [Op.signed] at hs
-  | wsetmeta _ _ _ _ _ => simp [Op.signed] at hs
+  | wsetmeta _ _ _ _ _ _ => simp [Op.signed] at hs
   | send _ _ _ _ => simp [Op.signed] at hs
   | grant _ _ => simp [Op.signed] at hs
   | revoke _ _ => simp [Op.signed] at hs
@@ -1035,7 +1058,7 @@ theorem supply_changes_only_by_admin {st st' : St} {op : Op} {r : Res} {d : Deno
     obtain ⟨n, _, hn⟩ := wChAdmin_ok h
     obtain ⟨_, _, rfl⟩ := hChAdmin_ok hn
     exact absurd rfl hne
-  | wsetmeta a d' base mdOk tag =>
+  | wsetmeta a d' base body mdOk tag =>
     obtain ⟨_, _, _, rfl⟩ := wSetMeta_ok h
     exact absurd rfl hne
   | send a b d' amt =>
@@ -1136,7 +1159,7 @@ theorem admin_meta_change_only_by_admin_or_create {st st' : St} {op : Op} {r : R
         rcases hne with hne | hne
         · exact hne (updD_ne _ _ hd)
         · apply hne
-          show updD (updD st.dmeta (tokenDenom a sub) (some 0)) (tokenDenom a sub) (some m.2) d = st.dmeta d
+          show updD (updD st.dmeta (tokenDenom a sub) (some 0)) (tokenDenom a sub) (some m.tag) d = st.dmeta d
           rw [updD_ne _ _ hd, updD_ne _ _ hd]
     subst hd
     refine Or.inr ⟨a, sub, rfl, rfl, hm, Or.inr ?_⟩
@@ -1150,7 +1173,7 @@ theorem admin_meta_change_only_by_admin_or_create {st st' : St} {op : Op} {r : R
     have := adminShape ha hst
     subst this
     exact Or.inl ⟨a, ha, rfl⟩
-  | wsetmeta a d' base mdOk tag =>
+  | wsetmeta a d' base body mdOk tag =>
     obtain ⟨ha, _, _, hst⟩ := wSetMeta_ok h
     have := metaShape hst
     subst this
@@ -1170,6 +1193,57 @@ theorem admin_meta_change_only_by_admin_or_create {st st' : St} {op : Op} {r : R
     simp only [step, Prod.mk.injEq, and_true] at h
     subst h
     rcases hne with hne | hne <;> exact absurd rfl hne
+
+/-- **only_admin_acts**, the wasm `set_metadata` message names TWO denominations: `denom` (whose
+admin is checked) and `metadata.base` (the key of the bank record that is written).  A successful
+`PerformSetMetadata` by contract `a` on `d`: `a` is the admin of `d`, the base is empty or `d` itself,
+the record describes `d` (`display` / first unit), the record of `d` gets the new tag — and the bank
+metadata of EVERY other denomination (factory denominations of other admins, native denominations,
+strings that are no denomination at all) is untouched, for whatever base and body the contract sent. -/
+theorem wasm_setmeta_key_is_checked_denom {st st' : St} {a : Addr} {d : Denom} {base : Option Denom}
+    {body : Denom} {mdOk : Bool} {tag : Nat}
+    (h : step st (.wsetmeta a d base body mdOk tag) = (st', .ok)) :
+    st.admin d = some a ∧ (base = none ∨ base = some d) ∧ body = d ∧ st'.dmeta d = some tag ∧
+      ∀ x, x ≠ d → st'.dmeta x = st.dmeta x := by
+  obtain ⟨ha, _, _, rfl, hb, hbody⟩ := wSetMeta_ok' (show wSetMeta st a d base body mdOk tag = (st', .ok) from h)
+  refine ⟨ha, hb, hbody, by simp [metaSt], ?_⟩
+  intro x hx
+  exact updD_ne _ _ hx
+
+/-- **only_admin_acts**, the same for the metadata a contract attaches to `create_denom`
+(`PerformCreateDenom` → `PerformSetMetadata` on the new denomination): whatever base / body the
+attached record names, a successful call changes the bank metadata of the newly created denomination
+only, and that denomination had no metadata before. -/
+theorem wasm_create_meta_only_new_denom {st st' : St} {a : Addr} {sub : Denom} {md : Option WMeta}
+    (h : step st (.wcreate a sub md) = (st', .ok)) :
+    st.dmeta (tokenDenom a sub) = none ∧ (st'.dmeta (tokenDenom a sub)).isSome = true ∧
+      (∀ m, md = some m → (m.base = none ∨ m.base = some (tokenDenom a sub)) ∧ m.body = tokenDenom a sub) ∧
+      ∀ x, x ≠ tokenDenom a sub → st'.dmeta x = st.dmeta x := by
+  obtain ⟨s1, h1, h2⟩ := wCreate_ok (show wCreate st a sub md = (st', .ok) from h)
+  obtain ⟨_, _, _, hm, _, rfl⟩ := hCreate_ok h1
+  rcases h2 with ⟨rfl, rfl⟩ | ⟨m, rfl, hm2⟩
+  · refine ⟨hm, by simp [createSt], (by intro m hm; cases hm), ?_⟩
+    intro x hx
+    exact updD_ne _ _ hx
+  · obtain ⟨_, _, _, rfl, hb, hbody⟩ := wSetMeta_ok' hm2
+    refine ⟨hm, by simp [metaSt], ?_, ?_⟩
+    · intro m' hm'
+      cases hm'
+      exact ⟨hb, hbody⟩
+    · intro x hx
+      show updD (updD st.dmeta (tokenDenom a sub) (some 0)) (tokenDenom a sub) (some m.tag) x = st.dmeta x
+      rw [updD_ne _ _ hx, updD_ne _ _ hx]
+
+/-- **only_admin_acts**, metadata frame over ALL operations: one step changes the bank metadata of
+at most one denomination, and that one is the denomination the operation is an admin action on or
+the one it creates (never a second denomination smuggled in through a payload field). -/
+theorem meta_change_only_target {st st' : St} {op : Op} {r : Res} {d : Denom}
+    (h : step st op = (st', r)) (hne : st'.dmeta d ≠ st.dmeta d) :
+    (∃ c, op.adminAct = some (c, d) ∧ st.admin d = some c) ∨ op.newDenom = some d := by
+  rcases admin_meta_change_only_by_admin_or_create h (Or.inr hne) with ⟨c, ha, hact⟩ | ⟨c, sub, hc, hd, _, _⟩
+  · exact Or.inl ⟨c, hact, ha⟩
+  · right
+    simp [Op.newDenom, hc, hd]
 
 /-- **mint_burn_touch_only_admin**, mint message.  A successful `MsgMint` of `amt` of `d` for `c`
 raises exactly the balance of `c` in `d` and the supply of `d` by `amt`; every other balance —
@@ -1327,7 +1401,7 @@ theorem mint_burn_touch_only_admin {st st' : St} {op : Op} {c : Addr} {d : Denom
   | setmeta _ _ _ _ _ _ => simp [Op.mintBurnDenom] at hmb
   | wcreate _ _ _ => simp [Op.mintBurnDenom] at hmb
   | wchadmin _ _ _ => simp [Op.mintBurnDenom] at hmb
-  | wsetmeta _ _ _ _ _ => simp [Op.mintBurnDenom] at hmb
+  | wsetmeta _ _ _ _ _ _ => simp [Op.mintBurnDenom] at hmb
   | send _ _ _ _ => simp [Op.mintBurnDenom] at hmb
   | grant _ _ => simp [Op.mintBurnDenom] at hmb
   | revoke _ _ => simp [Op.mintBurnDenom] at hmb
@@ -1402,7 +1476,7 @@ theorem ghost_counts_successes {st st' : St} {op : Op} {r : Res} (h : step st op
     obtain ⟨n, _, hn⟩ := wChAdmin_ok h
     obtain ⟨_, _, rfl⟩ := hChAdmin_ok hn
     exact ⟨by simp [Op.mintAmt, adminSt], by simp [Op.burnAmt, adminSt], by simp [Op.newDenom, Op.creates, adminSt]⟩
-  | wsetmeta a d' base mdOk tag =>
+  | wsetmeta a d' base body mdOk tag =>
     obtain ⟨_, _, _, rfl⟩ := wSetMeta_ok h
     exact ⟨by simp [Op.mintAmt, metaSt], by simp [Op.burnAmt, metaSt], by simp [Op.newDenom, Op.creates, metaSt]⟩
   | send a b d' amt =>
@@ -1487,7 +1561,7 @@ theorem namespace_of_create {st st' : St} {op : Op} {c : Addr} {sub : Denom}
   | wmint _ _ _ _ => simp [Op.creates] at hc
   | wburn _ _ _ _ => simp [Op.creates] at hc
   | wchadmin _ _ _ => simp [Op.creates] at hc
-  | wsetmeta _ _ _ _ _ => simp [Op.creates] at hc
+  | wsetmeta _ _ _ _ _ _ => simp [Op.creates] at hc
   | send _ _ _ _ => simp [Op.creates] at hc
   | grant _ _ => simp [Op.creates] at hc
   | revoke _ _ => simp [Op.creates] at hc
@@ -1555,7 +1629,7 @@ theorem no_recreate {st st' : St} {op : Op} {r : Res} (h : step st op = (st', r)
         obtain ⟨rfl, rfl⟩ := hact
         obtain ⟨_, _, _, rfl⟩ := hSetMeta_ok (step_setmeta_ok h).2
         exact hnot (by simp [metaSt])
-      | wsetmeta a d' base mdOk tag =>
+      | wsetmeta a d' base body mdOk tag =>
         simp only [Op.adminAct, Option.some.injEq, Prod.mk.injEq] at hact
         obtain ⟨rfl, rfl⟩ := hact
         obtain ⟨_, _, _, rfl⟩ := wSetMeta_ok h
@@ -1644,7 +1718,7 @@ theorem non_factory_untouchable {st st' : St} {op : Op} {r : Res} {d : Denom}
     | setmeta _ _ _ _ _ _ => simp [Op.mintBurnDenom] at hop
     | wcreate _ _ _ => simp [Op.mintBurnDenom] at hop
     | wchadmin _ _ _ => simp [Op.mintBurnDenom] at hop
-    | wsetmeta _ _ _ _ _ => simp [Op.mintBurnDenom] at hop
+    | wsetmeta _ _ _ _ _ _ => simp [Op.mintBurnDenom] at hop
     | send _ _ _ _ => simp [Op.mintBurnDenom] at hop
     | grant _ _ => simp [Op.mintBurnDenom] at hop
     | revoke _ _ => simp [Op.mintBurnDenom] at hop
@@ -1735,6 +1809,31 @@ example : (∀ x, (deconstruct x).isSome = true → (fun d => if d = exU then 60
   by_cases h : x = exU
   · subst h; simp [show deconstruct exU = none by decide] at hx
   · simp [h]
+
+/-- the wasm `set_metadata` payload: base omitted or equal to the denomination is accepted … -/
+def exV : Denom := [.txt "factory", .addr 1, .txt "gold"]
+def exS : St := run exG [.create 0 0 0 [.txt "foo"], .create 0 1 1 [.txt "gold"], .setmeta 0 1 1 exV true 3]
+example : exS.admin exD = some 0 ∧ exS.admin exV = some 1 ∧ exS.dmeta exV = some 3 := by decide
+example : (step exS (.wsetmeta 0 exD none exD true 7)).2 = .ok ∧
+    (step exS (.wsetmeta 0 exD (some exD) exD true 7)).2 = .ok ∧
+    (step exS (.wsetmeta 0 exD none exD true 7)).1.dmeta exD = some 7 := by decide
+/-- … a base / body naming somebody else's factory denomination or a native one is refused, and the
+foreign record stays as it was (the hypothesis of `wasm_setmeta_key_is_checked_denom` is not met by
+accident: these calls come from the admin of `denom` with an otherwise valid record) -/
+example : (step exS (.wsetmeta 0 exD (some exV) exV true 7)).2 = .rej .other ∧
+    (step exS (.wsetmeta 0 exD (some exU) exU true 7)).2 = .rej .other ∧
+    (step exS (.wsetmeta 0 exD none exV true 7)).2 = .rej .other ∧
+    (step exS (.wsetmeta 0 exD (some exD) exV true 7)).2 = .rej .other ∧
+    (step exS (.wsetmeta 0 exD (some exV) exD true 7)).2 = .rej .other ∧
+    (step exS (.wsetmeta 0 exD (some exV) exV true 7)).1.dmeta exV = some 3 := by decide
+/-- addressed directly at the foreign denomination it fails on the admin check -/
+example : (step exS (.wsetmeta 0 exV none exV true 7)).2 = .rej .other := by decide
+/-- `create_denom` with attached metadata: own record accepted, foreign base refused atomically -/
+example : (step exS (.wcreate 4 [.txt "w"] (some ⟨none, tokenDenom 4 [.txt "w"], true, 5⟩))).2 = .ok ∧
+    (step exS (.wcreate 4 [.txt "w"] (some ⟨none, tokenDenom 4 [.txt "w"], true, 5⟩))).1.dmeta (tokenDenom 4 [.txt "w"]) = some 5 ∧
+    (step exS (.wcreate 4 [.txt "w"] (some ⟨some exV, exV, true, 5⟩))).2 = .rej .other ∧
+    (step exS (.wcreate 4 [.txt "w"] (some ⟨some exV, exV, true, 5⟩))).1.dmeta (tokenDenom 4 [.txt "w"]) = none := by
+  decide
 
 end Examples
 
